@@ -2,6 +2,7 @@ package main
 
 import (
 	"bufio"
+	"bytes"
 	"encoding/json"
 	"fmt"
 	"regexp"
@@ -30,7 +31,8 @@ import (
 // C20: admission control (Pipeline.In / checkInputBytes / antispam).
 //
 // c20.spam <thr> <unban> <intervalNs> <rulesNil> <nExc> <checkSourceName>… <nRules> <ruleThr>… <defs>
-//          <nOps> op…
+//          <exception block: per exception <isOr> <nRules> (<mode> <ci> <inv> <nVals> <value>…)…>
+//          <nLower> (<bytes> <lowered>)…  <nOps> op…
 //     op = e <id> <name> <isNew> <timeNs> <event> <meta k=v|-> <excbits> <rulebits>  |  m
 //     defs = hex of the JSON text of c20Defs (exception rule sets and rule conditions)
 //     excbits / rulebits are the results of RuleSet.Match / DoIfChecker.Check (library oracles
@@ -45,7 +47,13 @@ import (
 //           <nCand> (<bytes> <excbits> (E | V <tree>))…
 //   result: per record `r` (In returned 0 or the event never reached the output) | `d <tree>`
 
+// c20.mr <isOr> <nRules> (<mode> <ci> <invert> <nVals> <value>…)… <data> <nLower> (<bytes> <lowered>)…
+//     matchrule.RuleSet{Cond, Rules}.Prepare(); Match(data). The (bytes, lowered) table is the ToLower
+//     oracle for what a case-insensitive rule lowers; exec re-evaluates it (bad-case on mismatch).
+//   result: `0|1`
+
 func init() {
+	execs["c20.mr"] = execC20Mr
 	execs["c20.spam"] = execC20Spam
 	execs["c20.in"] = execC20In
 	gens["C20"] = genC20
@@ -283,6 +291,9 @@ func execC20Spam(t *hx.Toks) string {
 	if err != nil || (rulesNil && nRules != 0) {
 		return "bad-case"
 	}
+	if !c20SkipExcBlock(t, defs.Exc) {
+		return "bad-case"
+	}
 	a := c20NewAntispammer(thr, unban, interval, exc, rules)
 	nOps := t.Int()
 	var out []string
@@ -304,7 +315,10 @@ func execC20Spam(t *hx.Toks) string {
 			if t.Err != nil || !ok {
 				return "bad-case"
 			}
-			if eb != c20ExcBits(exc, event, name) || rb != c20RuleBits(rules, event, name, meta) {
+			// eb (what the library answered for the exceptions when the case was generated) is
+			// informational: the model evaluates the exception rule sets itself
+			_ = eb
+			if rb != c20RuleBits(rules, event, name, meta) {
 				return "bad-case"
 			}
 			out = append(out, hx.B(a.IsSpam(id, name, isNew, event, time.Unix(0, tm), meta)))
@@ -317,6 +331,169 @@ func execC20Spam(t *hx.Toks) string {
 	}
 	out = append(out, c20Dump("D", a))
 	return strings.Join(out, " ")
+}
+
+// ---------------------------------------------------------------- matchrule
+
+func execC20Mr(t *hx.Toks) string {
+	isOr := t.Bool()
+	n := t.Int()
+	rs := matchrule.RuleSet{Name: "mr", Cond: matchrule.CondAnd}
+	if isOr {
+		rs.Cond = matchrule.CondOr
+	}
+	var ciVals [][]byte
+	for i := 0; i < n && t.Err == nil; i++ {
+		mode := t.Int()
+		ci := t.Bool()
+		inv := t.Bool()
+		nv := t.Int()
+		var vals []string
+		for j := 0; j < nv && t.Err == nil; j++ {
+			v := t.Bytes()
+			vals = append(vals, string(v))
+			if ci {
+				ciVals = append(ciVals, v)
+			}
+		}
+		if mode < 0 || mode > 2 {
+			return "bad-case"
+		}
+		rs.Rules = append(rs.Rules, matchrule.Rule{Values: vals, Mode: matchrule.Mode(mode), CaseInsensitive: ci, Invert: inv})
+	}
+	data := t.Bytes()
+	nl := t.Int()
+	for i := 0; i < nl && t.Err == nil; i++ {
+		b := t.Bytes()
+		l := t.Bytes()
+		if !bytes.Equal(bytes.ToLower(b), l) {
+			return "bad-case"
+		}
+	}
+	if t.Err != nil || !t.Done() {
+		return "bad-case"
+	}
+	for _, v := range ciVals { // Prepare lowers values with strings.ToLower
+		if strings.ToLower(string(v)) != string(bytes.ToLower(v)) {
+			return "bad-case"
+		}
+	}
+	rs.Prepare()
+	return hx.B(rs.Match(append([]byte(nil), data...)))
+}
+
+// c20ExcBlock writes, per exception, `<isOr> <nRules> (<mode> <ci> <inv> <nVals> <value>…)…` and then
+// `<nLower> (<bytes> <lowered>)…` covering what the case-insensitive rules lower on `datas`.
+func c20ExcBlock(w *bufio.Writer, excs []c20Exc, datas [][]byte) {
+	var tbl [][]byte
+	seen := map[string]bool{}
+	add := func(b []byte) {
+		if !seen[string(b)] {
+			seen[string(b)] = true
+			tbl = append(tbl, b)
+		}
+	}
+	for _, e := range excs {
+		fmt.Fprintf(w, " %s %d", hx.B(e.Or), len(e.Rules))
+		for _, r := range e.Rules {
+			fmt.Fprintf(w, " %d %s %s %d", r.Mode, hx.B(r.CI), hx.B(r.Inv), len(r.Values))
+			m := 0
+			for _, v := range r.Values {
+				fmt.Fprintf(w, " %s", hx.Enc([]byte(v)))
+				if l := len(bytes.ToLower([]byte(v))); l > m {
+					m = l
+				}
+			}
+			if r.CI {
+				for _, v := range r.Values {
+					add([]byte(v))
+				}
+				for _, d := range datas {
+					k := m
+					if k > len(d) {
+						k = len(d)
+					}
+					add(d)
+					add(d[:k])
+					add(d[len(d)-k:])
+				}
+			}
+		}
+	}
+	fmt.Fprintf(w, " %d", len(tbl))
+	for _, b := range tbl {
+		fmt.Fprintf(w, " %s %s", hx.Enc(b), hx.Enc(bytes.ToLower(b)))
+	}
+}
+
+// c20SkipExcBlock reads the block written by c20ExcBlock and checks it against the definitions.
+func c20SkipExcBlock(t *hx.Toks, excs []c20Exc) bool {
+	for _, e := range excs {
+		if t.Bool() != e.Or || t.Int() != len(e.Rules) {
+			return false
+		}
+		for _, r := range e.Rules {
+			if t.Int() != r.Mode || t.Bool() != r.CI || t.Bool() != r.Inv || t.Int() != len(r.Values) {
+				return false
+			}
+			for _, v := range r.Values {
+				if string(t.Bytes()) != v {
+					return false
+				}
+				if r.CI && strings.ToLower(v) != string(bytes.ToLower([]byte(v))) {
+					return false
+				}
+			}
+		}
+	}
+	n := t.Int()
+	for i := 0; i < n && t.Err == nil; i++ {
+		b := t.Bytes()
+		l := t.Bytes()
+		if !bytes.Equal(bytes.ToLower(b), l) {
+			return false
+		}
+	}
+	return t.Err == nil
+}
+
+func c20MrLine(w *bufio.Writer, isOr bool, rules []c20MRule, data []byte) {
+	fmt.Fprintf(w, "c20.mr %s %d", hx.B(isOr), len(rules))
+	var tbl [][]byte
+	seen := map[string]bool{}
+	add := func(b []byte) {
+		if !seen[string(b)] {
+			seen[string(b)] = true
+			tbl = append(tbl, b)
+		}
+	}
+	for _, r := range rules {
+		fmt.Fprintf(w, " %d %s %s %d", r.Mode, hx.B(r.CI), hx.B(r.Inv), len(r.Values))
+		m := 0
+		for _, v := range r.Values {
+			fmt.Fprintf(w, " %s", hx.Enc([]byte(v)))
+			if l := len(bytes.ToLower([]byte(v))); l > m {
+				m = l
+			}
+		}
+		if r.CI {
+			for _, v := range r.Values {
+				add([]byte(v))
+			}
+			k := m
+			if k > len(data) {
+				k = len(data)
+			}
+			add(data)
+			add(data[:k])
+			add(data[len(data)-k:])
+		}
+	}
+	fmt.Fprintf(w, " %s %d", hx.Enc(data), len(tbl))
+	for _, b := range tbl {
+		fmt.Fprintf(w, " %s %s", hx.Enc(b), hx.Enc(bytes.ToLower(b)))
+	}
+	w.WriteByte('\n')
 }
 
 // ---------------------------------------------------------------- Pipeline.In
@@ -515,6 +692,7 @@ func execC20In(t *hx.Toks) string {
 // ---------------------------------------------------------------- generators
 
 func genC20(w *bufio.Writer, rng *hx.Rng, tier string) {
+	genC20Mr(w, rng, tier)
 	genC20SpamExhaustive(w, tier)
 	genC20SpamRandom(w, rng, tier)
 	genC20In(w, rng, tier)
@@ -553,7 +731,17 @@ func c20SpamLine(w *bufio.Writer, thr, unban int, interval int64, rulesNil bool,
 	for _, r := range d2.Rules {
 		fmt.Fprintf(w, " %d", r.Thr)
 	}
-	fmt.Fprintf(w, " %s %d", d2.hex(), len(ops))
+	fmt.Fprintf(w, " %s", d2.hex())
+	// the exceptions once more in token form, for the model (it evaluates them itself), and the
+	// ToLower oracle table for what case-insensitive rules lower
+	var datas [][]byte
+	for _, o := range ops {
+		if !o.maint {
+			datas = append(datas, o.event, []byte(o.name))
+		}
+	}
+	c20ExcBlock(w, defs.Exc, datas)
+	fmt.Fprintf(w, " %d", len(ops))
 	for _, o := range ops {
 		if o.maint {
 			w.WriteString(" m")
@@ -569,6 +757,135 @@ func c20SpamLine(w *bufio.Writer, thr, unban int, interval int64, rulesNil bool,
 			o.tm, hx.Enc(o.event), mt, c20ExcBits(exc, o.event, o.name), c20RuleBits(rules, o.event, o.name, meta))
 	}
 	w.WriteByte('\n')
+}
+
+// matchrule: (1) every rule with one or two values (three in thorough) over {a,b} up to length 3, in
+// every mode, on every data string up to length 4: all relations between value lengths, data
+// length, min and max value size; (2) random rule sets whose values are prefixes / suffixes /
+// substrings / extensions of the data and of each other, 2..4 values of different lengths,
+// case-insensitive (ASCII), invert, and/or of 1..3 rules, data lengths around min and max value size.
+func genC20Mr(w *bufio.Writer, rng *hx.Rng, tier string) {
+	var strs []string
+	var rec func(cur string, max int, out *[]string)
+	rec = func(cur string, max int, out *[]string) {
+		*out = append(*out, cur)
+		if len(cur) == max {
+			return
+		}
+		rec(cur+"a", max, out)
+		rec(cur+"b", max, out)
+	}
+	rec("", 3, &strs)
+	var datas []string
+	rec("", 4, &datas)
+	idx := 0
+	emit := func(vals []string) {
+		for mode := 0; mode < 3; mode++ {
+			idx++
+			inv := idx%4 == 0
+			for _, d := range datas {
+				c20MrLine(w, false, []c20MRule{{Mode: mode, Values: vals, Inv: inv}}, []byte(d))
+			}
+		}
+	}
+	for _, a := range strs {
+		emit([]string{a})
+		for _, b := range strs {
+			if a != b {
+				emit([]string{a, b})
+			}
+		}
+	}
+	nTriples, nRand := 0, 6000
+	if tier == "thorough" {
+		nTriples, nRand = 2500, 120000
+	}
+	for i := 0; i < nTriples; i++ {
+		emit([]string{strs[rng.Intn(len(strs))], strs[rng.Intn(len(strs))], strs[rng.Intn(len(strs))]})
+	}
+	alpha := []byte("abABxy-_ .")
+	flip := func(b []byte) []byte {
+		o := append([]byte(nil), b...)
+		for i := range o {
+			if rng.Chance(1, 3) {
+				switch {
+				case o[i] >= 'a' && o[i] <= 'z':
+					o[i] -= 32
+				case o[i] >= 'A' && o[i] <= 'Z':
+					o[i] += 32
+				}
+			}
+		}
+		return o
+	}
+	for i := 0; i < nRand; i++ {
+		var data []byte
+		switch rng.Intn(6) {
+		case 0:
+			data = []byte([]string{"api-gw", "api", "payments-service", "svc-a", "kube-system_x", ""}[rng.Intn(6)])
+		case 1:
+			data = rng.Bytes(rng.Range(0, 6), []byte("ab"))
+		default:
+			data = rng.Bytes(rng.Range(0, 24), alpha)
+		}
+		nr := rng.Range(1, 3)
+		var rules []c20MRule
+		anyCI := false
+		for j := 0; j < nr; j++ {
+			r := c20MRule{Mode: rng.Intn(3), CI: rng.Chance(1, 3), Inv: rng.Chance(1, 5)}
+			anyCI = anyCI || r.CI
+			nv := rng.Range(1, 4)
+			used := map[int]bool{}
+			for len(r.Values) < nv {
+				var v []byte
+				k := 0
+				if len(data) > 0 {
+					k = rng.Range(0, len(data))
+				}
+				switch rng.Intn(8) {
+				case 0: // prefix of the data
+					v = data[:k]
+				case 1: // suffix
+					v = data[len(data)-k:]
+				case 2: // substring
+					lo := rng.Range(0, len(data)-k)
+					v = data[lo : lo+k]
+				case 3: // the data and something more (longer than the data)
+					v = append(append([]byte(nil), data...), rng.Bytes(rng.Range(1, 4), alpha)...)
+				case 4:
+					v = append(rng.Bytes(rng.Range(1, 4), alpha), data...)
+				case 5: // built on another value of this rule
+					if len(r.Values) > 0 {
+						o := []byte(r.Values[rng.Intn(len(r.Values))])
+						if rng.Bool() && len(o) > 0 {
+							v = o[:rng.Range(0, len(o)-1)]
+						} else {
+							v = append(append([]byte(nil), o...), rng.Bytes(rng.Range(1, 3), alpha)...)
+						}
+					} else {
+						v = rng.Bytes(rng.Range(0, 5), alpha)
+					}
+				case 6: // almost a prefix
+					v = append(append([]byte(nil), data[:k]...), 'z')
+				default:
+					v = rng.Bytes(rng.Range(0, 8), alpha)
+				}
+				if r.CI {
+					v = flip(v)
+				}
+				if rng.Chance(2, 3) && used[len(v)] { // prefer values of different lengths
+					continue
+				}
+				used[len(v)] = true
+				r.Values = append(r.Values, string(v))
+			}
+			rules = append(rules, r)
+		}
+		if !anyCI && rng.Chance(1, 10) { // arbitrary bytes for case-sensitive rules
+			data = append(data, 0xff, 0xc3, 0x00)
+		}
+		c20MrLine(w, rng.Bool(), rules, data)
+	}
 }
 
 // every sequence over {e: event inside the interval, E: event a whole interval later,
@@ -619,8 +936,8 @@ func genC20SpamExhaustive(w *bufio.Writer, tier string) {
 	rec(nil)
 }
 
-var c20Events = []string{`{"level":"info","msg":"a"}`, `{"level":"error","msg":"b"}`, `{"level":"debug"}`, `plain text`, `ERROR upper`, ``, `x`}
-var c20Names = []string{"svc-a", "svc-b", "kube-system_x", "my_source1", ""}
+var c20Events = []string{`{"level":"info","msg":"a"}`, `{"level":"error","msg":"b"}`, `{"level":"debug"}`, `plain text`, `ERROR upper`, ``, `x`, "PANIC: oom\n", `error`}
+var c20Names = []string{"svc-a", "svc-b", "kube-system_x", "my_source1", "", "api-gw", "api"}
 
 func c20GenDefs(rng *hx.Rng, withRules bool) *c20Defs {
 	d := &c20Defs{}
@@ -631,8 +948,9 @@ func c20GenDefs(rng *hx.Rng, withRules bool) *c20Defs {
 			if r.Mode == 1 {
 				r.CI = false
 			}
-			pool := []string{`{"level":"info"`, `{"level":"error"`, "svc-", "ERROR", "error", "x", "a\"}", "system", "", "plain"}
-			for v, nv := 0, rng.Range(1, 3); v < nv; v++ {
+			pool := []string{`{"level":"info"`, `{"level":"error"`, "svc-", "svc-a", "svc", "ERROR", "error", "x", "a\"}", "system",
+				"kube-system_x_and_more", "", "plain", "plain text and more", "api", "payments-service", "my_source1", "source1", "PANIC"}
+			for v, nv := 0, rng.Range(1, 4); v < nv; v++ {
 				r.Values = append(r.Values, pool[rng.Intn(len(pool))])
 			}
 			e.Rules = append(e.Rules, r)
@@ -721,7 +1039,11 @@ func genC20SpamRandom(w *bufio.Writer, rng *hx.Rng, tier string) {
 			default:
 				tm += int64(rng.Intn(int(c20Sec / 5)))
 			}
-			ev := c20Ev{id: id, name: c20Names[(int(id[0])+rng.Intn(2))%len(c20Names)], tm: tm,
+			nameIdx := int(id[0]) % len(c20Names)
+			if rng.Chance(1, 3) {
+				nameIdx = rng.Intn(len(c20Names))
+			}
+			ev := c20Ev{id: id, name: c20Names[nameIdx], tm: tm,
 				event: []byte(c20Events[rng.Intn(len(c20Events))]), isNew: rng.Chance(1, 15)}
 			if rng.Chance(1, 4) {
 				ev.meta = []string{"k=v1", "k=v2", "j=v1"}[rng.Intn(3)]
